@@ -598,6 +598,21 @@ def _self_inverse_forest_graph(ir, rng, i):
     return b, b.graph([y])
 
 
+def _self_inverse_addchain_graph(ir, rng, i):
+    """a1 = Add(T[p](x1), T[p](x2)); u = T[p](a1); a2 = Add(a1, u); y = T[p](a2) with a self-inverse p: u is an input Transpose of
+    chain member a2 AND a consumer Transpose of chain value a1 (the Add-chain phase silently computed s+s instead of T(s)+s:
+    .scratch/c02p/defect_transpose_addchain_self_inverse.py)"""
+    b = _Builder(ir, rng)
+    p = [[1, 0], [0, 1], [0, 2, 1]][i % 3]
+    shp = (2, 2, 2)[: len(p)]
+    x1, x2 = b.inp(shp), b.inp(shp)
+    a1 = b.node("Add", [_tnode(b, ir, x1, p), _tnode(b, ir, x2, p)], None)
+    u = _tnode(b, ir, a1, p)
+    a2 = b.node("Add", [a1, u] if i % 2 else [u, a1], None)
+    y = _tnode(b, ir, a2, p)
+    return b, b.graph([y] if i < 3 else [y, u])
+
+
 _KINDS = ["add_chain", "forest", "dag_direct_pair", "dag_with_elementwise", "chain_direct_pair", "chain_with_elementwise", "multi_consumer"]
 
 
@@ -612,7 +627,8 @@ def tie_transpose_pair_pass(ctx, n_cases):
     crashes = []
     ort_bad = []
     for c in range(n_cases):
-        b, g = _self_inverse_forest_graph(ir, rng, c) if c < 6 else _rand_transpose_graph(ir, rng, stats)
+        b, g = (_self_inverse_forest_graph(ir, rng, c) if c < 6 else
+                _self_inverse_addchain_graph(ir, rng, c - 6) if c < 12 else _rand_transpose_graph(ir, rng, stats))
         table = {}
 
         def intern(name):
@@ -620,7 +636,7 @@ def tie_transpose_pair_pass(ctx, n_cases):
         known = {v.name for v in b.inputs + b.consts + b.vals}
         before = dump(ir, g, intern, known)
         scalars = {intern(v.name): True for v in b.inputs + b.consts + b.vals if opt._is_scalar_const_value(v)}
-        ort_before = _ort_outputs(_model_bytes(ir, g), c) if c < 6 else None
+        ort_before = _ort_outputs(_model_bytes(ir, g), c) if c < 12 else None
         try:
             opt.remove_redundant_transpose_pairs_ir(g)
         except Exception as e:      # an exception of the real pass is a finding of its own, not a disagreement with the model
@@ -632,7 +648,7 @@ def tie_transpose_pair_pass(ctx, n_cases):
                         {"tie": "transpose_pair", "case": c, "seed": ctx.seed, "nodes": [list(map(str, n)) for n in before[0]], "outputs": before[1]})
             continue
         after = dump(ir, g, intern, known)
-        if c < 6:
+        if c < 12:
             ort_after = _ort_outputs(_model_bytes(ir, g), c)
             if not _same_outputs(ort_before, ort_after):
                 ort_bad.append((c, str(ort_before)[:120], str(ort_after)[:120]))
@@ -640,7 +656,12 @@ def tie_transpose_pair_pass(ctx, n_cases):
         stats["graphs_rewritten"] += int(before != after)
         stats["nodes_removed"] += removed
         rows.append((before, after, scalars))
-    header = common.CASES_HEADER + "From J2O Require Import Graph Redirect ReshapePairPass TransposePairPass.\nClose Scope Z_scope.\n" + """
+    header = common.CASES_HEADER + "From J2O Require Import Graph Redirect ReshapePairPass TransposePairPass TransposeRegion.\nClose Scope Z_scope.\n" + """
+Fixpoint all_proved (fuel : nat) (g : tgraph) : bool :=
+  match fuel with
+  | O => true
+  | S k => match decide_step g with Some a => proved_kind_all g a && all_proved k (apply_taction g a) | None => true end
+  end.
 Definition chk (c : tgraph * (list node * list nat)) : bool :=
   let '(g, (ns, outs)) := c in
   let g' := transpose_pair_pass 60 g in
@@ -649,7 +670,7 @@ Definition kinds (l : list (tgraph * (list node * list nat))) : list nat :=
   let tr := map (fun c => pass_trace 60 (fst c)) l in
   map (fun k => length (filter (Nat.eqb k) (concat tr))) (seq 1 7)
   ++ [length (filter (fun t => negb (match t with [] => true | _ => false end)) tr);
-      length (filter (fun t => negb (match t with [] => true | _ => false end) && forallb (fun k => negb (Nat.eqb k 1 || Nat.eqb k 2 || Nat.eqb k 4)) t) tr)].
+      length (filter (fun c => negb (match pass_trace 60 (fst c) with [] => true | _ => false end) && all_proved 60 (fst c)) l)].
 """
 
     def render(chunk, off):
@@ -677,11 +698,11 @@ Definition kinds (l : list (tgraph * (list node * list nat))) : list nat :=
                f"{ {n: kinds[k] for k, n in enumerate(_KINDS)} })",
                err is None and bad == [], "tie",
                err if err is not None else f"model and implementation differ on cases {bad[:6]}: {[rows[i][:2] for i in bad[:2]]}")
-    ctx.oblige("tie:remove_redundant_transpose_pairs_ir on the 6 self-inverse forest graphs (a Transpose that is both an input and an "
-               "output transpose of the forest): onnxruntime outputs are the same before and after the real pass", not ort_bad, "tie",
+    ctx.oblige("tie:remove_redundant_transpose_pairs_ir on the 12 self-inverse forest / Add-chain graphs (a Transpose that is both an "
+               "input and a consumer of the moved region): onnxruntime outputs are the same before and after the real pass", not ort_bad, "tie",
                f"outputs differ: {ort_bad[:3]}")
     for c, sb, sa in ort_bad:
-        ctx.violate("remove_redundant_transpose_pairs_ir:forest-self-inverse", f"the real pass changes the model's outputs on crafted graph {c}: before {sb} after {sa}",
+        ctx.violate("remove_redundant_transpose_pairs_ir:region-self-inverse", f"the real pass changes the model's outputs on crafted graph {c}: before {sb} after {sa}",
                     {"tie": "transpose_pair", "case": c, "seed": ctx.seed})
     ctx.coverage["transpose_pair_tie"] = dict(stats)
     if crashes:
